@@ -2,6 +2,10 @@
 // translator (tools/c15_extract_networks.cpp) and the harness (harness/c15.cpp).
 //   direct   : <family>::sortN(...)           N = 2..16 (no sort0/sort1 exist in tlx)
 //   dispatch : <family>::sort(begin,end,cmp)  N = 0..16 (anything else: abort())
+// All entry points are reached through an arbitrary random-access iterator `It`; `Seq<T>` lays a
+// sequence out behind four iterator kinds (pointer, std::reverse_iterator over a slice in the
+// middle of a larger buffer, std::deque iterators across a block boundary, a user-defined
+// strided iterator), with guard elements around / between the elements of the sequence.
 #pragma once
 #include <tlx/sort/networks/best.hpp>
 #include <tlx/sort/networks/bose_nelson.hpp>
@@ -9,7 +13,10 @@
 #include <tlx/sort/networks/cswap.hpp>
 
 #include <cstddef>
+#include <deque>
+#include <iterator>
 #include <string>
+#include <vector>
 
 namespace c15 {
 
@@ -53,8 +60,8 @@ inline int family_of(const char* s) {
 #define C15_ARR_BN(N) C15_ARR(bose_nelson, N)
 
 //! call the size-specific network directly; false if no such function exists
-template <typename T, typename CSwap>
-bool call_direct(int fam, int n, T* a, CSwap cs) {
+template <typename It, typename CSwap>
+bool call_direct(int fam, int n, It a, CSwap cs) {
     switch (fam) {
     case BEST:
         switch (n) { C15_ALL(C15_ARR_BEST) default: return false; }
@@ -74,8 +81,8 @@ bool call_direct(int fam, int n, T* a, CSwap cs) {
     case N: tlx::sort_networks::bose_nelson_parameter::sort##N(C15_P##N); return true;
 
 //! direct call with the documented default `CSwap cswap = CSwap()` (std::less via CS_IfSwap)
-template <typename T>
-bool call_direct_default(int fam, int n, T* a) {
+template <typename It>
+bool call_direct_default(int fam, int n, It a) {
     switch (fam) {
     case BEST:
         switch (n) { C15_ALL(C15_ARR_DEF_BEST) default: return false; }
@@ -88,8 +95,8 @@ bool call_direct_default(int fam, int n, T* a) {
 }
 
 //! dispatching call with the default comparator
-template <typename T>
-bool call_dispatch_default(int fam, int n, T* a) {
+template <typename It>
+bool call_dispatch_default(int fam, int n, It a) {
     if (n < 0 || n > 16) return false;
     switch (fam) {
     case BEST: tlx::sort_networks::best::sort(a, a + n); return true;
@@ -100,8 +107,8 @@ bool call_dispatch_default(int fam, int n, T* a) {
 }
 
 //! call the size-dispatching entry point (precondition 0 <= n <= 16, else tlx abort()s)
-template <typename T, typename Cmp>
-bool call_dispatch(int fam, int n, T* a, Cmp cmp) {
+template <typename It, typename Cmp>
+bool call_dispatch(int fam, int n, It a, Cmp cmp) {
     if (n < 0 || n > 16) return false;
     switch (fam) {
     case BEST: tlx::sort_networks::best::sort(a, a + n, cmp); return true;
@@ -112,8 +119,8 @@ bool call_dispatch(int fam, int n, T* a, Cmp cmp) {
 }
 
 //! either entry point with tlx's own CS_IfSwap around `cmp` (entry 0 = direct, 1 = dispatch)
-template <typename T, typename Cmp>
-bool call(int fam, int entry, int n, T* a, Cmp cmp) {
+template <typename It, typename Cmp>
+bool call(int fam, int entry, int n, It a, Cmp cmp) {
     if (entry == 0) return call_direct(fam, n, a, tlx::sort_networks::CS_IfSwap<Cmp>(cmp));
     return call_dispatch(fam, n, a, cmp);
 }
@@ -121,5 +128,132 @@ bool call(int fam, int entry, int n, T* a, Cmp cmp) {
 inline bool exists(int /*fam*/, int entry, int n) {
     return entry == 0 ? (n >= 2 && n <= 16) : (n >= 0 && n <= 16);
 }
+
+// ---------------------------------------------------------------------------- iterator kinds
+
+enum Kind { K_PTR = 0, K_REV = 1, K_DEQUE = 2, K_STRIDE = 3, NUM_KINDS = 4 };
+static const char* const kind_name[4] = {"ptr", "rev", "deque", "stride"};
+inline int kind_of(const std::string& s) {
+    for (int k = 0; k < 4; ++k)
+        if (s == kind_name[k]) return k;
+    return -1;
+}
+
+//! user-defined random-access iterator: element k lives at base[k * stride]
+template <typename T>
+class StrideIt {
+public:
+    typedef std::random_access_iterator_tag iterator_category;
+    typedef T value_type;
+    typedef std::ptrdiff_t difference_type;
+    typedef T* pointer;
+    typedef T& reference;
+    StrideIt() : p_(nullptr), s_(1) {}
+    StrideIt(T* p, std::ptrdiff_t s) : p_(p), s_(s) {}
+    reference operator*() const { return *p_; }
+    pointer operator->() const { return p_; }
+    reference operator[](difference_type k) const { return p_[k * s_]; }
+    StrideIt& operator++() { p_ += s_; return *this; }
+    StrideIt operator++(int) { StrideIt t = *this; p_ += s_; return t; }
+    StrideIt& operator--() { p_ -= s_; return *this; }
+    StrideIt operator--(int) { StrideIt t = *this; p_ -= s_; return t; }
+    StrideIt& operator+=(difference_type k) { p_ += k * s_; return *this; }
+    StrideIt& operator-=(difference_type k) { p_ -= k * s_; return *this; }
+    friend StrideIt operator+(StrideIt a, difference_type k) { a += k; return a; }
+    friend StrideIt operator+(difference_type k, StrideIt a) { a += k; return a; }
+    friend StrideIt operator-(StrideIt a, difference_type k) { a -= k; return a; }
+    friend difference_type operator-(const StrideIt& a, const StrideIt& b) { return (a.p_ - b.p_) / a.s_; }
+    friend bool operator==(const StrideIt& a, const StrideIt& b) { return a.p_ == b.p_; }
+    friend bool operator!=(const StrideIt& a, const StrideIt& b) { return a.p_ != b.p_; }
+    friend bool operator<(const StrideIt& a, const StrideIt& b) { return a.p_ < b.p_; }
+    friend bool operator>(const StrideIt& a, const StrideIt& b) { return a.p_ > b.p_; }
+    friend bool operator<=(const StrideIt& a, const StrideIt& b) { return a.p_ <= b.p_; }
+    friend bool operator>=(const StrideIt& a, const StrideIt& b) { return a.p_ >= b.p_; }
+private:
+    T* p_;
+    std::ptrdiff_t s_;
+};
+
+//! A sequence of n elements of type T laid out for one iterator kind.  `T` needs
+//! `static T guard(long id)` (a recognisable filler value) and `bool same(const T&) const`.
+//!   ptr    : heap array of exactly n elements (ASan guards the outside)
+//!   rev    : buffer [G guards][n elements][G guards], sequence = reverse_iterator from the slice end
+//!   deque  : std::deque with P guards in front such that the n elements straddle a block
+//!            boundary (`variant` moves the split point), and G guards behind
+//!   stride : buffer with stride 3, two guards between neighbouring elements, G guards at both ends
+template <typename T>
+struct Seq {
+    static const int G = 18;
+    int kind, n, variant;
+    std::vector<T> buf;
+    std::deque<T> dq;
+    size_t off;   // rev: index of the slice start; deque: prefix length; stride: index of element 0
+
+    Seq(int kind_, int n_, int variant_) : kind(kind_), n(n_), variant(variant_), off(0) {
+        if (kind == K_PTR) buf.assign(size_t(n), T::guard(0));
+        else if (kind == K_REV) {
+            off = G;
+            for (int i = 0; i < n + 2 * G; ++i) buf.push_back(T::guard(i));
+        }
+        else if (kind == K_DEQUE) {
+            size_t block = sizeof(T) < 512 ? 512 / sizeof(T) : 1;   // libstdc++ __deque_buf_size
+            size_t split = n >= 2 ? size_t(1 + variant % (n - 1)) : 1;   // elements before the boundary
+            off = 2 * block - split;
+            for (size_t i = 0; i < off + size_t(n) + G; ++i) dq.push_back(T::guard(long(i)));
+        }
+        else {
+            off = G;
+            for (int i = 0; i < 3 * n + 2 * G; ++i) buf.push_back(T::guard(i));
+        }
+    }
+    //! logical element k of the sequence
+    T& at(int k) {
+        switch (kind) {
+        case K_PTR: return buf[size_t(k)];
+        case K_REV: return buf[off + size_t(n - 1 - k)];
+        case K_DEQUE: return dq[off + size_t(k)];
+        default: return buf[off + 3 * size_t(k)];
+        }
+    }
+    bool is_guard_index(size_t i) const {
+        if (kind == K_PTR) return false;
+        if (kind == K_STRIDE) return !(i >= off && i < off + 3 * size_t(n) && (i - off) % 3 == 0);
+        return !(i >= off && i < off + size_t(n));
+    }
+    //! every cell that is not part of the sequence still holds its filler
+    bool guards_ok() const {
+        if (kind == K_DEQUE) {
+            for (size_t i = 0; i < dq.size(); ++i)
+                if (is_guard_index(i) && !dq[i].same(T::guard(long(i)))) return false;
+            return true;
+        }
+        for (size_t i = 0; i < buf.size(); ++i)
+            if (is_guard_index(i) && !buf[i].same(T::guard(long(i)))) return false;
+        return true;
+    }
+    //! do the elements of the deque layout really straddle a block boundary?
+    bool straddles() {
+        if (kind != K_DEQUE) return false;
+        for (int k = 0; k + 1 < n; ++k)
+            if (&at(k + 1) != &at(k) + 1) return true;
+        return false;
+    }
+    //! logical index of the object at address p, or -1
+    int index_of(const T* p) {
+        for (int k = 0; k < n; ++k)
+            if (&at(k) == p) return k;
+        return -1;
+    }
+    //! f(first) with `first` an iterator of this kind to logical element 0
+    template <typename F>
+    bool apply(F&& f) {
+        switch (kind) {
+        case K_PTR: return f(buf.data());
+        case K_REV: return f(std::reverse_iterator<T*>(buf.data() + off + n));
+        case K_DEQUE: return f(dq.begin() + std::ptrdiff_t(off));
+        default: return f(StrideIt<T>(buf.data() + off, 3));
+        }
+    }
+};
 
 }  // namespace c15
